@@ -31,7 +31,8 @@ RULE = ('programs of 1-4 equations from random syntax trees (as C20), each rende
         '(also on the left-hand side), +k for leads, continuation lines inside parentheses, trailing comments, comment and blank lines, '
         'statement permutation; single transformations and random compositions; strict cases (same gaps non-empty) must give identical '
         'equation and code strings, the others identical Symbol fields and ast-equal code.  Flagged transformations: blank before the '
-        'index bracket (#20), blank inside the left-hand index bracket (#22), an unclosed fence between statements (#24).  Plus scripts of '
+        'index bracket (#20), blank inside the left-hand index bracket (#22).  Programs with a ``` fence opened and never closed between two '
+        'statements must be rejected with ParserError (fix 85765d5).  Plus scripts of '
         'the parser_common generator and their mutations (independence + fixed point).  Non-trivial = base accepted with >= 1 equation '
         'and the transformed text differs from the base; distinct by hash of the case.')
 TRUSTED = ['extraction of the parser model to OCaml (ExtrOcamlBasic + ExtrOcamlString only) and coq/Extract/Graph/driver.ml',
@@ -213,7 +214,9 @@ FIXED = [
     {'k': 'meta', 'stmts': ['Y = X[-1]'], 'var': 'Y = X [-1]', 'strict': False, 'feats': ['sbi'], 'flags': ['space-before-index'], 'perm': None, 'skipfix': []},
     {'k': 'meta', 'stmts': ['Y = {a} * X["a"]'], 'var': 'Y = {a} * X ["a"]', 'strict': False, 'feats': ['sbi'], 'flags': ['space-before-index'], 'perm': None, 'skipfix': []},
     {'k': 'meta', 'stmts': ['Y[1] = X'], 'var': 'Y[ 1 ] = X', 'strict': True, 'feats': ['lhsinner'], 'flags': ['lhs-index-inner-space'], 'perm': None, 'skipfix': []},
-    {'k': 'fence', 'stmts': ['Y = X', '```\nfoo = 1', 'Z = W'], 'flags': ['unclosed-fence']},
+    {'k': 'fence', 'stmts': ['Y = X', '```\nfoo = 1', 'Z = W']},
+    {'k': 'fence', 'stmts': ['```', 'Y = X']},
+    {'k': 'fence', 'stmts': ['Y = X', '```\nfoo = 1']},
     {'k': 's', 's': 'Y[=1]'},
     {'k': 'meta', 'stmts': ['C = {alpha_1} * YD + {alpha_2} * H[-1]'], 'var': 'C = ({ alpha_1 }[0] * YD[ 0 ] +\n     {alpha_2}*H[ -1 ])  # consumption',
      'strict': False, 'feats': ['ws', 'inner', 'zero', 'cont', 'comment'], 'flags': [], 'perm': None, 'skipfix': []},
@@ -235,6 +238,11 @@ def gen(rng, tier):
     for _ in range(40 if tier == 'quick' else 600):
         cases.append(gen_meta(rng, ['sbi'] + rng.sample(FEATS, 2), strict=False))
         cases.append(gen_meta(rng, ['lhsinner', 'inner'], strict=True))
+    for _ in range(60 if tier == 'quick' else 1500):
+        c = gen_meta(rng, [], strict=False)
+        k = rng.randrange(len(c['stmts']) + 1)
+        fence = rng.choice(['```', '```\nfoo = 1', '````\nx = (1', '```python\npass', '```\n``'])
+        cases.append({'k': 'fence', 'stmts': c['stmts'][:k] + [fence] + c['stmts'][k:]})
     for _ in range(400 if tier == 'quick' else 6000):
         s = pc.gen_script(rng)
         cases.append({'k': 's', 's': s})
@@ -467,7 +475,7 @@ def oracle(case, obs):
 
     def add(clause, what):
         sig = clause
-        for fl in ('space-before-index', 'lhs-index-inner-space', 'unclosed-fence'):
+        for fl in ('space-before-index', 'lhs-index-inner-space'):
             if fl in flags:
                 sig = clause + '|' + fl
                 break
@@ -488,6 +496,10 @@ def oracle(case, obs):
     elif case['k'] in ('meta', 'fence') and 'syms' in base and any('exc' in p for p in obs['stmts']):
         add('statements-independent', 'the script parses but a statement alone raises')
     if case['k'] == 'fence':
+        # a fence that is never closed: the script is rejected whole (nothing after the fence may be dropped silently)
+        if base.get('exc') != 'ParserError':
+            add('unclosed-fence-accepted', 'a script with a ``` fence that is never closed gives %s instead of ParserError'
+                % (base.get('exc') or 'a symbol list'))
         return fails
     # ---- layout transformations
     if 'var' in obs:
